@@ -237,7 +237,7 @@ func CmdCheck(args []string) int {
 	for hi := range chk.Harnesses {
 		h := &chk.Harnesses[hi]
 		if h.Label == "" {
-			h.Label = h.Fn
+			h.Label = h.Pkg + "." + h.Fn
 		}
 		if *only != "" && h.Fn != *only && h.Label != *only {
 			continue
